@@ -1,4 +1,5 @@
 from ._common import STD_TRUST
+from ._links import with_links
 
 
 def _regen_readerconsts(ctx):
@@ -31,7 +32,14 @@ PROP = dict(
               'Fit.C08.C08_checkIntegrity_indep', 'Fit.C08.C08_reader_error', 'Fit.C08.C08_reader_error_decode',
               'Fit.C08.C08_reader_error_loop', 'Fit.C08.C08_raw_chunk_indep'],
     families=[dict(name='readbuffer', spec=True), dict(name='dfrag', spec=True, prop=True)],
-    extra=_extra,
+    # link theorems between the decoder models this property composes with (additive: checklib/props/_links.py)
+    extra=with_links(_extra, ['Fit.Links.Link_decprog_eq_api',
+                             'Fit.Links.Link_chunk_indep_api',
+                             'Fit.Links.Link_chunk_indep_api_two',
+                             'Fit.Links.Link_chunk_indep_integrity',
+                             'Fit.Links.Link_chunk_indep_decodeAll',
+                             'Fit.Links.Link_stdFactory_ok'],
+                     crosscheck=[('dfrag', 'linkinteg')]),
     trusted_base=STD_TRUST + [
         "the model of readBuffer.Reset/ReadN (FitModel/ReadBuffer.lean: backing array, len, cur, last, memmove into the reserved section, refill) is hand-written from decoder/readbuffer.go and tied by family readbuffer: the unexported type (hook decoder/verif_export.go) driven with arbitrary Reset/ReadN sequences × schedules × buffer sizes, every returned byte string and error compared",
         "io.ReadAtLeast / io.ReadFull (Go standard library) are modelled from their documentation and six-line loop (ral/readAtLeast); the io.Reader is a schedule of (bytes, error) results, delivered piecewise when the destination is shorter; a reader that violates the io.Reader contract (n > len(p), n < 0) is outside the model",
